@@ -59,6 +59,25 @@ Definition fed_ok2 (g : gschema) : bool :=
   negb (existsb (String.eqb "Query") (g_keyed g)).
 
 
+(** what selectService (planner.go:150-178) needs in order not to fail: every field is served by at least one
+    service, and a ServiceSelector entry names a service that serves the field *)
+Definition sel_ok (g : gschema) : bool :=
+  forallb (fun e => let '(_, _, _, owners) := e in match owners with [] => false | _ => true end) (g_fields g) &&
+  forallb (fun e => let '(t, f, s) := e in
+     match find_gfield g t f with
+     | Some (_, owners) => existsb (String.eqb s) owners
+     | None => true
+     end) (g_selector g).
+
+(** fuel of the planner on a normalised selection set: two units per field level (the selection itself, and
+    the step to another service), one per union-member fragment *)
+Fixpoint pd (n : node) : nat :=
+  match n with
+  | NField _ _ _ _ _ _ subs => 2 + fold_right (fun x d => Nat.max (pd x) d) 0 subs
+  | NFrag _ _ subs => 1 + fold_right (fun x d => Nat.max (pd x) d) 0 subs
+  end.
+Definition pdl (l : list node) : nat := fold_right (fun x d => Nat.max (pd x) d) 0 l.
+
 (** ** the world of data of a case: a finite table of resolver results (everything else is null) *)
 Definition world_of (calls : list (string * Z * string * string * aval)) (orgs : list (string * Z * Z)) : world :=
   mk_world
@@ -116,13 +135,13 @@ Definition calls_ok (g : gschema) (calls : list (string * Z * string * string * 
      | None => true
      end) calls.
 
-(** all premises about one case: the federation, the data, the query, its normal form and its plan *)
+(** all premises about one case: the federation, the data, the query and its normal form ([pick] is kept as a
+    parameter for the callers; that the planner succeeds is no longer a premise: PlannerTotal) *)
 Definition premises (g : gschema) (calls : list (string * Z * string * string * aval))
            (pick : list string -> option string) (q : list node) : bool :=
   let fuel := 2 * depth_list q + 4 in
-  fed_ok g && fed_ok2 g && calls_ok g calls && forallb qwf q &&
+  fed_ok g && fed_ok2 g && sel_ok g && calls_ok g calls && forallb qwf q &&
   match flatten fuel false g (RObj "Query") (Some q) with
-  | Some (Some flat) =>
-      flat_ok g "Query" flat && match plan_root g pick fuel flat with Some _ => true | None => false end
+  | Some (Some flat) => flat_ok g "Query" flat
   | _ => false
   end.
